@@ -11,7 +11,10 @@ mod c03;
 mod c06;
 mod c07;
 mod c08;
+mod c09;
 mod c11;
+mod c12;
+mod c13;
 mod c14;
 mod c15;
 mod c16;
@@ -80,7 +83,10 @@ fn main() {
         "C06" => c06::run(&eng, replay.as_deref()),
         "C07" => c07::run(&eng, replay.as_deref()),
         "C08" => c08::run(&eng, replay.as_deref()),
+        "C09" => c09::run(&eng, replay.as_deref()),
         "C11" => c11::run(&eng, replay.as_deref()),
+        "C12" => c12::run(&eng, replay.as_deref()),
+        "C13" => c13::run(&eng, replay.as_deref()),
         "C14" => c14::run(&eng, replay.as_deref()),
         "C15" => c15::run(&eng, replay.as_deref()),
         "C16" => c16::run(&eng, replay.as_deref()),
